@@ -3,6 +3,7 @@ package sys
 import (
 	"context"
 	"fmt"
+	"strings"
 	"sync"
 	"testing"
 	"time"
@@ -59,6 +60,9 @@ func (w *c01World) validServe(endpoint, stampEp, stampUp string, start, end time
 	}
 	u := w.byID(stampUp)
 	if u == nil {
+		if ForeignStamp(stampUp, w.cl.Gen) {
+			w.c.Harnessf("a request was answered by upstream %q, which belongs to an earlier cluster of this process (harness leak / port reuse)", stampUp)
+		}
 		return fmt.Sprintf("served by unknown upstream %q", stampUp)
 	}
 	if u.Endpoint != endpoint {
@@ -267,12 +271,52 @@ func TestC01(t *testing.T) {
 				c.NonTrivial()
 			}
 		}
+		// a burst of upstreams with endpoint ids of differing length on one node, so
+		// that its advertisement does not fit one gossip packet
+		if c.Chance("endpointBurst", 1, 4) {
+			node := cl.Nodes[c.Pick("burstNode", N)]
+			k := c.Int("burstSize", 25, 60)
+			var wg sync.WaitGroup
+			errs := make(chan error, k)
+			var bmu sync.Mutex
+			for i := 0; i < k; i++ {
+				ep := fmt.Sprintf("burst-%d-%s", i, strings.Repeat("x", (i*37)%90))
+				id := fmt.Sprintf("b%d", i)
+				wg.Add(1)
+				go func() {
+					defer wg.Done()
+					ctx, cancel := context.WithTimeout(context.Background(), Deadline())
+					defer cancel()
+					u, err := ConnectUpstream(ctx, node, id, ep, "sdk-http", UpstreamOpts{})
+					if err != nil {
+						errs <- err
+						return
+					}
+					bmu.Lock()
+					w.mu.Lock()
+					w.ups = append(w.ups, u)
+					w.mu.Unlock()
+					bmu.Unlock()
+				}()
+			}
+			wg.Wait()
+			select {
+			case err := <-errs:
+				c.Fatalf("C01: an upstream of the burst could not connect: %v", err)
+			default:
+			}
+			c.Stepf("burst of %d upstreams with distinct endpoint ids of differing length on %s", k, node.ID)
+			c.Class("endpoint-burst")
+		}
 		steps := c.Int("steps", 1, 20)
 		for i := 0; i < steps; i++ {
 			kind := c.Weighted("step", []string{"connect", "disconnect", "request", "settle"}, []int{6, 3, 5, 2})
 			switch kind {
 			case "connect", "disconnect":
 				stop := make(chan struct{})
+				var stopOnce sync.Once
+				halt := func() { stopOnce.Do(func() { close(stop) }) }
+				defer halt() // also when the case is aborted in the middle of the step
 				var wg sync.WaitGroup
 				wg.Add(1)
 				go runChurn(stop, &wg)
@@ -290,7 +334,7 @@ func TestC01(t *testing.T) {
 					u, err := ConnectUpstream(ctx, node, id, ep, k, UpstreamOpts{})
 					cancel()
 					if err != nil {
-						close(stop)
+						halt()
 						wg.Wait()
 						c.Fatalf("C01: upstream %s could not connect to %s: %v", id, node.ID, err)
 					}
@@ -311,7 +355,7 @@ func TestC01(t *testing.T) {
 					}
 				}
 				time.Sleep(time.Duration(c.Int("churnMs", 0, 30)) * time.Millisecond)
-				close(stop)
+				halt()
 				wg.Wait()
 				churnMu.Lock()
 				f := churnFail
@@ -349,6 +393,7 @@ func TestC01(t *testing.T) {
 			} else {
 				victim.Srv.Shutdown()
 			}
+			cl.HoldPorts(victim)
 			for _, u := range w.ups {
 				if u.Node == victim {
 					u.DisconnectEnd = time.Now()
